@@ -11,7 +11,7 @@
 //        defines a stream (s = its description for spec/FramingTrace.tla, atoms = bytes); the
 //        one-read reference execution "<sid>/ref" is run immediately
 //   {"sid":"c2","cuts":[17,40],"src":"tlc"}      one execution with exactly these cut offsets
-//   {"sid":"c2","gen":"all2"}                    every 2-way split (every byte offset)
+//   {"sid":"c2","gen":"all2"[,"from":a,"to":b]}  every 2-way split (every byte offset [in a..b])
 //   {"sid":"c2","gen":"bytes"}                   one byte at a time
 //   {"sid":"c2","gen":"rand","count":N}          N seeded random k-way splits (ctx.rng)
 // Positions listed in s.sync are always cuts (stream restart: the peer waits for the receiver).
@@ -192,8 +192,11 @@ struct Runner {
                 dl.append(o);
                 g.k == "null" ? ++nulls : ++nd;
             }
-            ctx.emit_({ { "e", "Read" }, { "n", to - from }, { "dl", dl },
-                        { "o", QJsonObject { { "nd", nd }, { "nulls", nulls }, { "rr", rr }, { "stall", !ok } } } });
+            QJsonObject o { { "nd", nd }, { "nulls", nulls }, { "rr", rr } };
+            if (!ok) {
+                o["stall"] = true;
+            }
+            ctx.emit_({ { "e", "Read" }, { "n", to - from }, { "dl", dl }, { "o", o } });
             from = to;
         }
         if (ok) {
@@ -262,7 +265,8 @@ QXV_DRIVER(framing)
             }
             ok = r.run(def, next(sid), cuts, false, b["src"].toString("job"));
         } else if (gen == "all2") {
-            for (int p = 1; ok && p < n; p++) {
+            const int lo = std::max(1, b["from"].toInt(1)), hi = std::min(n - 1, b["to"].toInt(n - 1));
+            for (int p = lo; ok && p <= hi; p++) {
                 ok = r.run(def, next(sid), { p }, false, "all2");
             }
         } else if (gen == "bytes") {
